@@ -195,6 +195,75 @@ def pyvc_violations(res):
                 out.append(viol)
         except Exception as e:  # noqa
             continue
+    out += bmc_violations(res, out)
+    return out
+
+
+def bmc_violations(res, found):
+    """bounded refutation by loop unrolling for configurations that have open obligations, or refuted obligations whose
+    counter-model could not be replayed: only counterexamples that fail on the real code are reported"""
+    from pyvc.engine import Exec, NotInSubset, ContractError
+    from pyvc import source
+    from pyvc.discharge import bounded_refute
+    rep = res.report
+    out = []
+    todo = {}
+    for t, c, v in rep.open():
+        if getattr(c, 'bmc', None):
+            todo.setdefault((t.fullname, c.name), (t, c, []))[2].append(v.obl.name)
+    for viol in found:
+        if viol.kind == 'obligation' and not viol.reproduced:
+            for t, c, v in rep.refuted():
+                if f'{v.obl.name}@{t.fullname}' == viol.key and getattr(c, 'bmc', None):
+                    todo.setdefault((t.fullname, c.name), (t, c, []))[2].append(v.obl.name)
+    for (tname, cname), (t, c, names) in todo.items():
+        fz = getattr(c, 'fuzz', None)
+        if fz is not None:
+            # bounded stand-in of the same function: its contract evaluated concretely on the real function over random small inputs
+            try:
+                hit = fz()
+            except Exception:  # noqa
+                hit = None
+            if hit is not None:
+                runner, args, result = hit
+                viol = Violation(f'contract@{t.fullname}:bounded-search', f'{t.fullname}: obligation(s) {sorted(set(names))[:3]} undecided / not replayable; the bounded search over small '
+                                 f'inputs of the same function found an input violating its contract on the real code: {result.get("violated", [""])[0]}',
+                                 runner, args, True, result, 'obligation', t.fullname, sorted(set(names))[0])
+                viol.solver = {'status': 'solver gave no replayable counter-model; concrete bounded search used', 'open_or_unreplayed': sorted(set(names))[:6]}
+                out.append(viol)
+                continue
+        try:
+            bc = c.bmc()
+            fn, sha = source.find(t.mod, t.qualname)
+            ex = Exec(t.fullname, fn, source.module_namespace(t.mod), bc.contract, prims=t.prims(source.module_namespace(t.mod)) if callable(t.prims) else t.prims,
+                      kinds=t.kinds)
+            obls = ex.run(bc.setup(ex))
+        except (NotInSubset, ContractError, Exception) as e:  # noqa
+            continue
+        lo, hi = c.bmc_domain
+        seen = set()
+        budget = time.time() + 120
+        for o in obls:
+            if o.expect != 'proved' or not o.name.startswith('post:') or o.name in seen or time.time() > budget:
+                continue
+            try:
+                m = bounded_refute(o, lo, hi, timeout_s=20)
+                if m is None:
+                    continue
+                r = bc.replay(m, o, ex)
+                if r is None:
+                    continue
+                result = run_runner(*r)
+            except Exception:  # noqa
+                continue
+            if result.get('reproduced'):
+                seen.add(o.name)
+                key = f'{o.name}@{t.fullname}'
+                viol = Violation(key + ':bounded-unrolling', f'{t.fullname}: obligation(s) {sorted(set(names))[:3]} undecided / not replayable; bounded unrolling of the loop '
+                                 f'found an input on which postcondition `{o.name}` fails on the real code', r[0], r[1], True, result, 'obligation', t.fullname, o.name)
+                viol.solver = {'status': 'sat on the unrolled, finitely expanded obligation', 'unrolled_config': bc.name, 'open_or_unreplayed': sorted(set(names))[:6]}
+                out.append(viol)
+                break
     return out
 
 
